@@ -12,6 +12,7 @@
               crate-local kernels in both (the parallel arm splits work, it does not re-implement it).
   R-CHUNK     chunked reductions do not fold captured accumulator-typed values: independence of the
               number of chunks (rules/chunk.py).
+  R-TAIL      exact-size chunking (chunks_exact & co.) consumes its remainder.
   R-THREADS   functions whose result shape depends on rayon::current_num_threads() are enumerated; a
               new one is listed as undecided for review (not an alarm).
 """
@@ -175,8 +176,37 @@ def check_threads(res, facts):
                     rule.undecided(key, "new use of the thread count: its effect on the result is arithmetic on run-time sizes and must be reviewed", fn.loc)
 
 
+EXACT = {"chunks_exact", "par_chunks_exact", "chunks_exact_mut", "par_chunks_exact_mut", "array_chunks", "as_chunks", "rchunks_exact"}
+REMAINDER = {"remainder", "into_remainder", "remainder_mut", "take_remainder", "into_remainder_mut"}
+
+
+def check_tail(res, facts):
+    rule = res.rule("R-TAIL", "exact-size chunking never drops its remainder (work split into equal shares must also process the tail)", 2)
+    for fn in facts.fns():
+        if "::tests::" in fn.id or "::test::" in fn.id or fn.kind == "Closure":
+            continue
+        group = [fn] + facts.closures_of(fn)
+        ex = [(f, t) for f in group for _, t in f.calls() if t["f"].get("name") in EXACT]
+        if not ex:
+            continue
+        rem = [t for f in group for _, t in f.calls() if t["f"].get("name") in REMAINDER]
+        key = "%s/%s|%s" % (fn.unit, fn.crate, fn.id[-120:])
+        witness = fn.crate == "verif_shapes"
+        if rem:
+            if witness and fn.name == "tail_keeper":
+                rule.ok(key, "witness twin: remainder consumed, not matched", fn.loc)
+            else:
+                rule.ok(key, "remainder consumed", fn.loc)
+        elif witness:
+            rule.ok(key, "positive witness matched (the rule still sees exact chunking without remainder)", fn.loc)
+        else:
+            rule.bad(key, "%s splits the input into equal shares and never looks at the remainder: the last len %% share elements are silently skipped (depends on the thread count / input length)" % ex[0][1]["f"]["name"], fn.loc)
+    if not any(k[0].startswith("shapes/verif_shapes") and "tail_dropper" in k[0] for k in rule.instances):
+        rule.bad("witness|tail_dropper", "the positive example in /verif/witness/shapes was not matched: rule has gone blind")
+
+
 def run(ctx, res):
-    facts = ctx.facts(["ws", "par"])
+    facts = ctx.facts(["ws", "par", "shapes"])
     res.analysed = facts.stats()
     check_freeze(res, facts)
     check_reduce(res, facts)
@@ -184,6 +214,7 @@ def run(ctx, res):
     rc = res.rule("R-CHUNK", "chunked parallel reductions are independent of the number of chunks", 7)
     chunk.check_chunks(rc, facts, ["par"])
     check_threads(res, facts)
+    check_tail(res, facts)
     return {
         "level": "other",
         "explanation": "Effect/ownership and sibling rules over the MIR of the crates built with their `parallel` features, compared with the serial build: captured state of every rayon closure is Freeze and free of synchronisation primitives, parallel reductions are over commutative monoids, serial and parallel variants of a function share their kernels, chunk accumulators start from the monoid identity. Together with Rust's Send/Sync typing this decides independence of the interleaving for a fixed split. Correctness of per-chunk offsets / tails for every thread count is arithmetic on run-time values and NOT decided (the `configurations` half of the quantifier).",
